@@ -15,7 +15,7 @@ class Contract:
                  inline=(), spec_module=None, assumed=False, float_as_real=False, note="", ghost_effect=None,
                  known=None, havoc_on_raise=False, loops=None, uses=None, body_contracts=None, trusted=(),
                  frame_check=True, cuts=None, env=None, raises_unchanged=(), engine_setup=None, native_setup=None,
-                 ghost_init=None, opaque=(), callsite_ensures=None):
+                 ghost_init=None, opaque=(), callsite_ensures=None, bound=None):
         self.qual = qual
         self.short = qual.split(":")[1]
         self.props = list(props)
@@ -50,6 +50,8 @@ class Contract:
         self.ghost_init = ghost_init
         self.opaque = list(opaque)
         self.callsite_ensures = callsite_ensures    # labels assumed at call sites (None = all)
+        self.bound = bound      # stated bound on the INPUT SHAPES of this contract (its obligations are then a bounded
+                                # stand-in, discharged by the same solver but not a proof for all inputs)
 
 
 def contract(qual, **kw) -> Contract:
